@@ -72,6 +72,14 @@ class NoSeekFile:
 
 
 def make_exc(name):
+    if name.startswith("Chained"):
+        # an exception raised while another one was being handled (or "raise ... from ..."):
+        # it carries __context__ / __cause__
+        e = make_exc(name[len("Chained"):])
+        inner = KeyError("inner failure")
+        e.__context__ = inner
+        e.__cause__ = inner
+        return e
     return {
         "ValueError": ValueError, "OSError": OSError, "ConnectionResetError": ConnectionResetError,
         "KeyboardInterrupt": KeyboardInterrupt, "SystemExit": SystemExit, "GeneratorExit": GeneratorExit,
@@ -112,6 +120,22 @@ class BodyIter:
             raise make_exc(self.prog.get("exc_class", "ValueError"))
 
 
+class LazyIter(BodyIter):
+    """A generator-function application: start_response() is only called when the
+    server asks for the first chunk (PEP 3333 allows that)."""
+
+    def __init__(self, prog, rec, chunks, start_response, headers):
+        super().__init__(prog, rec, chunks, False)
+        self._sr, self._hdrs = start_response, headers
+
+    def __next__(self):
+        if self._sr is not None:
+            sr, self._sr = self._sr, None
+            sr(self.prog["status"], self._hdrs)
+            self.rec.started = True
+        return super().__next__()
+
+
 class BodyList(BodyIter):
     def __len__(self):
         return len(self.chunks)
@@ -131,6 +155,8 @@ def run_program(prog, environ, start_response, rec):
     headers = [tuple(h) for h in prog.get("headers", [])]
     if exc and exc[0] == "no_start":
         return BodyIter(prog, rec, list(prog["chunks"]), False)
+    if prog["delivery"] == "lazy":
+        return LazyIter(prog, rec, list(prog["chunks"]), start_response, headers)
     write = start_response(prog["status"], headers)
     rec.started = True
     if prog.get("restart"):
